@@ -691,12 +691,27 @@ func (e *exec) Do(line string) string {
 			r.SetMeta(m)
 			r.UpdateMeta()
 			r.UpdateMeta()
+		case "4": // metadata produced by the expiry / delete / reset methods
+			r.SetMeta(m)
+			r.Meta().SetAbsoluteExpiry(m.Modified)
+		case "5":
+			r.SetMeta(m)
+			r.Meta().SetRelativateExpiry(seed)
+			r.UpdateMeta()
+		case "6":
+			r.SetMeta(m)
+			r.Meta().Delete()
+		case "7":
+			r.SetMeta(m)
+			r.Meta().Reset()
 		default:
 			r.CreateMeta()
 		}
 		if r.Meta() == nil {
 			return "FAIL no metadata after CreateMeta/UpdateMeta"
 		}
+		var nilMeta *record.Meta
+		_, _ = nilMeta.CheckValidity(), nilMeta.CheckPermission(true, true) // nil receivers: totality only
 		want := showMeta(r.Meta())
 		b, err := r.MarshalRecord(r)
 		if err != nil {
@@ -708,6 +723,16 @@ func (e *exec) Do(line string) string {
 		}
 		if showMeta(w.Meta()) != want {
 			return "FAIL meta " + showMeta(w.Meta()) + " want " + want
+		}
+		// the parsed record answers like the original (clock-dependent answers are judged only if the original
+		// answers the same before and after)
+		answers := func(x *record.Meta) string {
+			return fmt.Sprint(x.GetAbsoluteExpiry(), x.GetRelativeExpiry(), x.CheckValidity(), x.IsDeleted(),
+				x.CheckPermission(false, false), x.CheckPermission(true, false), x.CheckPermission(false, true), x.CheckPermission(true, true))
+		}
+		a1, p, a2 := answers(r.Meta()), answers(w.Meta()), answers(r.Meta())
+		if a1 == a2 && p != a1 {
+			return "FAIL parsed metadata answer " + p + ", the original answers " + a1
 		}
 		dup := r.Meta().Duplicate()
 		r.Meta().Created++
@@ -1389,7 +1414,7 @@ func generate(r *hxlib.Run, emit func(hxlib.Case)) {
 	}
 	// metadata made by CreateMeta / UpdateMeta survive the storage form; Duplicate is an independent copy
 	for i := 0; i < r.Budget(300, 10000); i++ {
-		emit(hxlib.Case{Lines: []string{fmt.Sprintf("um %d %s %d", rng.Intn(4), strings.Join(meta(), " "), rng.Intn(100))}, NonTrivial: true, Kind: "update-meta", NoModel: true})
+		emit(hxlib.Case{Lines: []string{fmt.Sprintf("um %d %s %d", rng.Intn(9), strings.Join(meta(), " "), rng.Intn(100))}, NonTrivial: true, Kind: "update-meta", NoModel: true})
 	}
 	// keys
 	for i := 0; i < 300; i++ {
